@@ -253,6 +253,78 @@ DIRECTED = [
 ]
 
 
+IO_XML = os.path.join(C.VERIF, "corpus", "c02", "io-two-levels.xml")   # pack:2 [numa] l2:2 [numa] core:2 pu:1 + a host bridge/PCI device below every Package and every L2
+
+# level merging by KEEP_STRUCTURE inside restrict, in both directions (parent level replaced by its child level,
+# child level merged into its parent level), with Misc / memory / I/O children on BOTH sides of the merge
+DIRECTED += [
+    ("merge-parent-into-child-misc", ["filter 19 0", "flags 0", "src synthetic pack:1 core:4 pu:2"],
+     ["group cs=b0+b1+b2+b3", "misc #2 g", "misc #3 c", "restrict b0+b1 0"]),
+    ("merge-child-into-parent-misc", ["filter 19 0", "flags 0", "src synthetic pack:1 core:4 pu:2"],
+     ["group cs=b0+b1+b2+b3", "misc #1 p", "misc #2 g", "restrict b0+b1+b2+b3 0"]),
+    ("merge-parent-into-child-memory", ["filter 1 2", "flags 0", "src synthetic pack:2 [numa] l2:2 [numa] core:1 pu:1"],
+     ["restrict b0 1"]),
+    ("merge-child-into-parent-memory", ["filter 6 2", "flags 0", "src synthetic pack:2 [numa] l2:2 [numa] core:2 pu:1"],
+     ["restrict b0+b1 1"]),
+    ("merge-parent-into-child-io", ["filter io 0", "filter 1 2", "flags 0", "src xml " + IO_XML], ["restrict b0+b1 5"]),
+    ("merge-child-into-parent-io", ["filter io 0", "filter 6 2", "flags 0", "src xml " + IO_XML], ["restrict b0+b1 5"]),
+]
+
+MERGE_TOPOS = [
+    "pack:1 core:4 pu:2", "pack:2 core:4 pu:1", "pack:2 [numa] l2:2 [numa] core:2 pu:1", "pack:2 [numa] l2:2 [numa] core:1 pu:1",
+    "group:2 pack:2 [numa] core:2 pu:1", "pack:1 [numa] die:2 [numa] l3:2 core:2 pu:1", "pack:3 [numa] [numa] core:2 pu:2",
+    "numa:2 pack:2 l2:2 pu:2", "pack:2 die:1 core:2 pu:1",
+]
+
+
+def gen_merge_case(rng):
+    """A short history aimed at hwloc_filter_levels_keep_structure inside restrict: Misc (and I/O) kept,
+    some types KEEP_STRUCTURE, Groups inserted above existing levels, Misc (also nested) under objects of
+    adjacent levels, then restricts that leave single-child chains.  Returns (config, calls, kind)."""
+    cfg = ["filter 19 0"]
+    use_xml = rng.random() < 0.25
+    if use_xml or rng.random() < 0.5:
+        cfg.append("filter io 0")
+    r = rng.random()
+    if r < 0.2:
+        cfg.insert(0, "filter all 2")
+        cfg.append("filter 19 0")
+        if use_xml:
+            cfg.append("filter io 0")
+    else:
+        for ty in rng.sample([1, 2, 3, 6, 7, 13], rng.randint(0, 2)):
+            cfg.append("filter %d %d" % (ty, rng.choice([2, 2, 0])))
+    cfg.append("flags %d" % rng.choice([0, 0, 1]))
+    cfg.append("src xml " + IO_XML if use_xml else "src synthetic " + rng.choice(MERGE_TOPOS))
+    calls = []
+    small = lambda hi=14: "#%d" % rng.randrange(0, hi)
+    for _ in range(rng.randint(0, 3)):
+        a = rng.randrange(1, 10)
+        spec = rng.choice(["cs=cs#%d+cs#%d" % (a, a + rng.choice([1, 2, 3, 4])), "cs=cs%s" % small(), "cs=b0+b1+b2+b3", "cs=b0+b1", "cs=b4+b5+b6+b7"])
+        calls.append("group %s%s%s" % (spec, rng.choice(["", "", " dm=1"]), rng.choice(["", " kind=%d" % rng.choice([1, 5, 900])])))
+    for _ in range(rng.randint(2, 10)):
+        calls.append("misc %s %s" % (small(20), rng.choice(["-", "m"])))
+    if rng.random() < 0.3:
+        calls.append("ud %s" % small())
+    for _ in range(rng.randint(1, 3)):
+        q = rng.random()
+        if q < 0.45:
+            st = "cs%s" % small(16)
+        elif q < 0.7:
+            st = rng.choice(["b0", "b0+b1", "b0+b1+b2+b3", "b2+b3", "b4+b5", "b0+b4"])
+        elif q < 0.85:
+            st = "~cs%s" % small(16)
+        else:
+            st = "ns%s" % small(16)
+        fl = rng.choice([0, 1, 2, 3, 4, 5, 6, 7])
+        if st.startswith("ns"):
+            fl = 8 | rng.choice([0, 2, 4, 6, 16, 18, 22])
+        calls.append("restrict %s %d" % (st, fl))
+        if rng.random() < 0.3:
+            calls.append("misc %s -" % small(12))
+    return cfg, calls, "merge"
+
+
 def script(config, calls):
     return "\n".join(["new"] + list(config) + ["load"] + list(calls) + ["destroy"]) + "\n"
 
